@@ -13,3 +13,12 @@ Fixpoint contiguous_from (a : Z) (cs : list chunk) : Prop :=
 Definition chunking_of (R : list row) (a b : Z) (dt : Z) (run : option Z) (cs : list chunk) : Prop :=
   cs <> [] /\ contiguous_from a cs /\ last_end a cs = b /\ Forall wf cs /\
   Forall (fun c => cdtype c = dt /\ crun c = run) cs /\ flat_map crows cs = R.
+
+(* the chunks of output number k, in the order they are yielded *)
+Definition item_chunk (k : nat) (it : option (list chunk)) : list chunk :=
+  match it with
+  | Some cs => match nth_error cs k with Some c => [c] | None => [] end
+  | None => []
+  end.
+Definition out_stream (k : nat) (items : list (option (list chunk))) : list chunk :=
+  flat_map (item_chunk k) items.
